@@ -152,6 +152,10 @@ def _aio_tweak(rng_, s):
     for o in s["ops"]:
         if o["op"] == "sch" and rng_.random() < 0.12:
             o["badrepr"] = True
+        elif o["op"] == "sch" and rng_.random() < 0.1:
+            # a plain callable instead of a coroutine function: every run fails at the await - and is counted like any run
+            o["plain_handle"] = True
+            o["runs"] = [{"acts": [], "raises": "TypeError"}]
     return s
 
 
